@@ -214,10 +214,12 @@ Definition nth_str (n : nat) (l : list str) : res str :=
 Definition par_flux (bd : dict) (fargs : list (str * str)) (addl : dict) (procs nodes : val) : res str :=
   let ntasks0 := if truthy nodes then nodes else get_default bd (s "nodes") (VInt 1) in
   let ntasks := if truthy ntasks0 then ntasks0 else VInt 1 in
-  fN <- nth_str 0 flux_par_flags ;;
-  fc <- nth_str 1 flux_par_flags ;;
-  fg <- nth_str 2 flux_par_flags ;;
-  fo <- nth_str 3 flux_par_flags ;;
+  fn <- nth_str 0 flux_par_flags ;;
+  fN <- nth_str 1 flux_par_flags ;;
+  fc <- nth_str 2 flux_par_flags ;;
+  fg <- nth_str 3 flux_par_flags ;;
+  fo <- nth_str 4 flux_par_flags ;;
+  let pn := if truthy procs then [fn; render procs] else [] in
   let cpt := match lookup (s "cores per task") addl with
              | Some v => [fc; render (if truthy v then v else VInt 1)]
              | None => []
@@ -228,7 +230,7 @@ Definition par_flux (bd : dict) (fargs : list (str * str)) (addl : dict) (procs 
            | [] => []
            | _ => [fo; join (s ",") (map (fun kv : str * str => fst kv ++ s "=" ++ snd kv) fargs)]
            end in
-  Ok (join (s " ") (flux_par_lead ++ [render procs; fN; render ntasks] ++ cpt ++ g ++ o)).
+  Ok (join (s " ") (flux_par_lead ++ pn ++ [fN; render ntasks] ++ cpt ++ g ++ o)).
 
 (** * The scripts *)
 Record script := { sc_sched : bool; sc_name : str; sc_text : str;
@@ -264,8 +266,8 @@ Definition write_lsf (b : batch) (st : step) : res script :=
                      (rb <- format lsf_body (pos1 restart) ;; Ok (header ++ rb)) ;;
   Ok {| sc_sched := sched; sc_name := name; sc_text := header ++ body; sc_restart := rs |}.
 
-(** FluxScriptAdapter._write_script: the header is written even for a local
-    step, and a local step's restart script starts with the bare shell path *)
+(** FluxScriptAdapter._write_script: the (informational) header is written
+    even for a local step; a local step's restart script has the shebang only *)
 Definition write_flux (b : batch) (broker : str) (st : step) : res script :=
   bd <- batch_flux b ;;
   r <- scheduler_command (par_flux bd (b_args b) (addl_args st)) st ;;
@@ -275,7 +277,8 @@ Definition write_flux (b : batch) (broker : str) (st : step) : res script :=
   body <- format flux_body (pos1 cmd) ;;
   rs <- restart_part restart (format flux_restart_name (pos2 (st_name st) flux_extension))
                      (rb <- format flux_body (pos1 restart) ;;
-                      Ok ((if sched then header else render (flux_exec b)) ++ rb)) ;;
+                      lh <- format flux_local_header [(s "0", flux_exec b)] ;;
+                      Ok ((if sched then header else lh) ++ rb)) ;;
   Ok {| sc_sched := sched; sc_name := name; sc_text := header ++ body; sc_restart := rs |}.
 
 (** LocalScriptAdapter._write_script *)
